@@ -550,7 +550,7 @@ class PureInterp:
         cache = self.__dict__.setdefault("_nt_types", {})
         if id(cls) not in cache:
             typ = None
-            if any((self.index.canon(b, cls.module) or "").endswith("NamedTuple") for b in getattr(cls, "base_exprs", [])):
+            if any((self.index.canon(b, cls.module) or "").endswith("NamedTuple") for b in getattr(cls, "base_exprs", [])) and not cls.methods:
                 import collections as _c
                 names = [f[0] for f in cls.fields if f[1] is not None]
                 defaults = []
